@@ -6,11 +6,14 @@ import re
 import shutil
 import subprocess
 import tempfile
+import sys
 import time
 
 HERE = os.path.dirname(os.path.abspath(__file__))
 VERIF = os.path.dirname(HERE)
 CACHE = os.path.join(VERIF, '.cache', 'wx-target')
+sys.path.insert(0, VERIF)
+import cachestamp  # noqa: E402
 
 # unit -> (crate, repo-relative file the witness module is a child of, witness source, test name)
 WITNESS = {
@@ -41,9 +44,11 @@ def search(unit, repo, seed=0, timeout=900):
     cmd = ['cargo', 'test', '-p', crate, '--offline', '--lib', test, '--', '--nocapture', '--test-threads', '1']
     env = dict(os.environ, CARGO_NET_OFFLINE='true', CARGO_TARGET_DIR=CACHE, VERIF_SEED=str(seed))
     t0 = time.time()
+    cachestamp.stamp(d, CACHE)
     try:
       p = subprocess.run(cmd, cwd=d, env=env, stdout=subprocess.PIPE, stderr=subprocess.STDOUT, text=True, timeout=timeout)
       out = p.stdout
+      cachestamp.finished(CACHE)
     except subprocess.TimeoutExpired as e:
       out = (e.stdout or '') if isinstance(e.stdout, str) else (e.stdout or b'').decode('utf-8', 'replace')
       out += '\n[timeout]\n'
